@@ -286,6 +286,33 @@ func (x *Exec) builtinExtern(st *State, key string, c *ssa.CallCommon, a []*Val,
 		r := x.ufApp("errAs."+tk, SBool, T(0))
 		x.assume(st, tImp(tEq(T(0), errNil), tNot(r)))
 		return boolVal(r), true, nil
+	case "sort.Slice", "sort.SliceStable":
+		// in-place permutation of the slice's elements (sortedness w.r.t. the closure is NOT modelled)
+		if mi, ok := c.Args[0].(*ssa.MakeInterface); ok {
+			if sv, ok := x.regs[mi.X]; ok && sv.K == VSlice {
+				use()
+				x.assumptions["sort.Slice is modelled as an arbitrary in-place permutation (bijection on the index range); the resulting order is not modelled"] = true
+				et := mi.X.Type().Underlying().(*types.Slice).Elem()
+				n := sv.F[2].T
+				pi := x.D.fresh("perm", arr(SInt, SInt))
+				inv := x.D.fresh("perm.inv", arr(SInt, SInt))
+				i := &Term{Op: "i!pm", S: SInt}
+				inr := func(t *Term) *Term { return tAnd(tCmp(">=", t, intLit(0)), tCmp("<", t, n)) }
+				x.assume(st, tForall([]*Term{i}, tImp(inr(i), tAnd(inr(tSelect(pi, i)), tEq(tSelect(inv, tSelect(pi, i)), i))), []*Term{tSelect(pi, i)}))
+				x.assume(st, tForall([]*Term{i}, tImp(inr(i), tAnd(inr(tSelect(inv, i)), tEq(tSelect(pi, tSelect(inv, i)), i))), []*Term{tSelect(inv, i)}))
+				for _, lf := range leavesOf(et) {
+					key := sliceKey(et, lf.Path)
+					h := x.heapGet(st, key, arr(SInt, arr(SInt, lf.S)))
+					old := tSelect(h, sv.F[0].T)
+					nw := x.D.fresh("sorted.elems", arr(SInt, lf.S))
+					x.assume(st, tForall([]*Term{i}, tImp(inr(i), tEq(tSelect(nw, i), tSelect(old, tSelect(pi, i)))), []*Term{tSelect(nw, i)}))
+					x.heapSet(st, key, tStore(h, sv.F[0].T, nw))
+				}
+				st.ghost["$perm"] = &Val{K: VScalar, T: pi}
+				st.ghost["$perminv"] = &Val{K: VScalar, T: inv}
+				return unitVal, true, nil
+			}
+		}
 	case "fmt.Sprintf":
 		if v, ok := x.sprintfModel(st, c); ok {
 			use()
